@@ -60,3 +60,56 @@ xw!{c09w_bi64x3_as_bu32x8, 40, u64, 3, b64, BUint, BInt<3>, |u| BInt::<3>::from_
 xw!{c09w_bi32x5_as_bu64x3, 40, u32, 5, b32, BUintD32, BIntD32<5>, |u| BIntD32::<5>::from_bits(u), true, u64, 3, b64, BUint<3>, |t: BUint<3>| *t.digits()}
 xw!{c09w_bu64x3_as_bi32x8, 40, u64, 3, b64, BUint, BUint<3>, |u| u, false, u32, 8, b32, BIntD32<8>, |t: BIntD32<8>| *t.to_bits().digits()}
 xw!{c09w_bu8x17_as_bi64x3, 40, u8, 17, b8, BUintD8, BUintD8<17>, |u| u, false, u64, 3, b64, BInt<3>, |t: BInt<3>| *t.to_bits().digits()}
+
+// primitive -> bnum integer wider than 128 bits (zero / sign extension beyond the source) and back (truncation)
+macro_rules! pw {
+    ($name:ident, $P:ty, $signed:expr, $TD:ty, $TN:literal, $tb:ident, $T:ty, $tdig:expr) => {
+        #[kani::proof]
+        #[kani::unwind(40)]
+        fn $name() {
+            let p: $P = kani::any();
+            let pb = p.to_le_bytes();
+            let neg: bool = ($signed) && (pb[pb.len() - 1] >> 7) == 1;
+            kani::cover!(neg == ($signed)); kani::cover!(pb[pb.len() - 1] >> 7 == 1);
+            let t: $T = <$T>::cast_from(p);
+            let td: [$TD; $TN] = ($tdig)(t);
+            let tbytes = $TN * core::mem::size_of::<$TD>();
+            let mut i = 0;
+            while i < tbytes {
+                let e = if i < pb.len() { pb[i] } else if neg { 0xffu8 } else { 0u8 };
+                assert_eq!($tb(&td, i), e);
+                i += 1;
+            }
+        }
+    };
+}
+macro_rules! wp {
+    ($name:ident, $SD:ty, $SN:literal, $sb:ident, $SU:ident, $S:ty, $mk:expr, $P:ty) => {
+        #[kani::proof]
+        #[kani::unwind(40)]
+        fn $name() {
+            let d: [$SD; $SN] = kani::any();
+            let s: $S = ($mk)($SU::<$SN>::from_digits(d));
+            kani::cover!(d[$SN - 1] != 0);
+            let p: $P = <$P>::cast_from(s);
+            let pb = p.to_le_bytes();
+            let mut i = 0;
+            while i < pb.len() { assert_eq!(pb[i], $sb(&d, i)); i += 1; }
+        }
+    };
+}
+pw!{c09w_u128_as_bu64x3, u128, false, u64, 3, b64, BUint<3>, |t: BUint<3>| *t.digits()}
+pw!{c09w_u128_as_bu32x5, u128, false, u32, 5, b32, BUintD32<5>, |t: BUintD32<5>| *t.digits()}
+pw!{c09w_u128_as_bu8x17, u128, false, u8, 17, b8, BUintD8<17>, |t: BUintD8<17>| *t.digits()}
+pw!{c09w_u128_as_bi64x3, u128, false, u64, 3, b64, BInt<3>, |t: BInt<3>| *t.to_bits().digits()}
+pw!{c09w_i128_as_bu64x3, i128, true, u64, 3, b64, BUint<3>, |t: BUint<3>| *t.digits()}
+pw!{c09w_i128_as_bi32x5, i128, true, u32, 5, b32, BIntD32<5>, |t: BIntD32<5>| *t.to_bits().digits()}
+pw!{c09w_i128_as_bi16x9, i128, true, u16, 9, b16, BIntD16<9>, |t: BIntD16<9>| *t.to_bits().digits()}
+pw!{c09w_u64_as_bu64x3, u64, false, u64, 3, b64, BUint<3>, |t: BUint<3>| *t.digits()}
+pw!{c09w_i64_as_bi64x3, i64, true, u64, 3, b64, BInt<3>, |t: BInt<3>| *t.to_bits().digits()}
+pw!{c09w_i8_as_bu8x17, i8, true, u8, 17, b8, BUintD8<17>, |t: BUintD8<17>| *t.digits()}
+wp!{c09w_bu64x3_as_u128, u64, 3, b64, BUint, BUint<3>, |u| u, u128}
+wp!{c09w_bi64x3_as_i128, u64, 3, b64, BUint, BInt<3>, |u| BInt::<3>::from_bits(u), i128}
+wp!{c09w_bu32x5_as_u128, u32, 5, b32, BUintD32, BUintD32<5>, |u| u, u128}
+wp!{c09w_bi8x17_as_i64, u8, 17, b8, BUintD8, BIntD8<17>, |u| BIntD8::<17>::from_bits(u), i64}
+wp!{c09w_bu16x9_as_u32, u16, 9, b16, BUintD16, BUintD16<9>, |u| u, u32}
